@@ -27,7 +27,7 @@ func (f *frame) call(site siteT, cc *ssa.CallCommon) Val {
 	matched := f.atCallAsserts(cc, site.Pos())
 	res := f.doCall(site, cc, fnVal, args, site.Pos())
 	for _, ac := range matched {
-		if len(ac.Assumes) == 0 {
+		if len(ac.Assumes) == 0 && len(ac.Sets) == 0 {
 			continue
 		}
 		env := f.pointEnv(f.heap)
@@ -49,6 +49,16 @@ func (f *frame) call(site siteT, cc *ssa.CallCommon) Val {
 		for _, cl := range ac.Assumes {
 			f.assumeClause(env, cl, f.guard)
 			f.c.assumed[fmt.Sprintf("assumed at call %s#%d: %s", ac.Callee, ac.Ordinal, cl.Text)] = true
+		}
+		for _, gs := range ac.Sets {
+			g := f.c.eng.ghosts[gs.Name]
+			if g == nil {
+				specFail("ghost assignment to undeclared ghost field %s", gs.Name)
+			}
+			srt := arraySort(SInt, specSort(g.Sort))
+			obj, val := env.eval(gs.Obj.E).T, env.eval(gs.Val.E).T
+			arr := f.c.heapGet(f.heap, "G "+g.Name, srt)
+			f.c.heapSet(f.heap, "G "+g.Name, ite(f.guard, store(arr, obj, val), arr))
 		}
 	}
 	return res
